@@ -732,7 +732,7 @@ def flex_layout(context, box, bottom_space, skip_stack, containing_block, page_i
                 line.lower_baseline = max(line.lower_baseline, child.baseline)
         if line.lower_baseline == -inf:
             line.lower_baseline = line[0][1]._baseline if line else 0
-        for index, child in line:
+        for i, (index, child) in enumerate(line):
             cross_margins = (
                 (child.margin_top, child.margin_bottom) if cross == 'height'
                 else (child.margin_left, child.margin_right))
@@ -817,7 +817,11 @@ def flex_layout(context, box, bottom_space, skip_stack, containing_block, page_i
                                     child.border_left_width + child.border_right_width +
                                     child.padding_left + child.padding_right)
                         # TODO: Don't set style width, find a way to avoid width
-                        # re-calculation after 16.
+                        # re-calculation after 16. Set it on a copy for now, as
+                        # the style is shared with the box of the next layouts.
+                        child = child.copy()
+                        child.style = child.style.copy()
+                        line[i] = (index, child)
                         child.style[cross] = Dimension(line.cross_size - margins, 'px')
         position_cross += line.cross_size
 
